@@ -4,7 +4,7 @@
  "file": "init.c", "function": "advance", "also_functions": ["subobj"],
  "properties": {"C07": "contract", "C10": "contract", "C19": "safety"},
  "mode": "harness",
- "unwind": 13,
+ "unwind": 13, "unwindset": ["advance.0:4"], "unwind_failure": "violation",
  "kind": "proof-const-unwind",
  "bound": "struct S { int a; struct T { int x; int y; } t; union U { int i; short h; } u; int b[2]; int c; } at an arbitrary base offset; the cursor stands on any of a, t (whole), t.x, t.y, u (whole), u.i, u.h, b (whole), b[0], b[1], c; the brace level is S or (for t, t.x, t.y) T",
  "timeout": 200, "replay": false,
